@@ -199,6 +199,12 @@ FIXED = [
     n = L('t4')[T('t5', a):T('t6', 1):T('t7', b), T('t8', c)]
     return (0, 0, 0)
 '''}),
+ ('C10', 'cache-entry-vanishes-between-has-and-read', '2dc1cd0',
+  "KeyError out of to_graph/converted_call: lock-free has() saw an entry that the garbage collector removed before the read (schedule dependent; found under 16-32 threads with a gc churn thread)",
+  None),
+ ('C10', 'cache-keyed-by-code-equality', '9c09b88',
+  "cache keyed by code-object equality: entry of a live function filed under an equal code object of an unloaded module disappeared with it; source transformation ran twice for one (code object, options) pair",
+  None),
  ('C04', 'nested-conditional-expression-native', '97e2f5a',
   "a conditional expression nested in the test or a branch of another one stayed native (visit_IfExp did not visit children)",
   'C04MATRIX'),
@@ -226,8 +232,11 @@ def main():
       from vf.props import c04
       wit = {'src': c04.header() + c04.matrix_program('r = T("res", (b if a > 0 else (c if b > 0 else a)))\nr = (b if (c if a > 0 else b) > 0 else a)'),
              'mode': 'to_graph', 'feats': []}
-    out.append({'property': prop, 'key': key, 'status': 'fixed', 'commit': commit, 'what': what,
-                'line': 'fixed: property=%s %s %s' % (prop, commit, what), 'witness': wit})
+    ent = {'property': prop, 'key': key, 'status': 'fixed', 'commit': commit, 'what': what,
+           'line': 'fixed: property=%s %s %s' % (prop, commit, what)}
+    if wit is not None:
+      ent['witness'] = wit
+    out.append(ent)
   for e in OPEN:
     out.append(e)
   json.dump({'findings': out}, open(os.path.join(ROOT, 'known_findings.json'), 'w'), indent=1)
